@@ -31,13 +31,21 @@ def RefKey.parse (n : Nat) (data : Bytes) : Option RefKey := do
 def RefKey.wiped (n : Nat) : RefKey :=
   ⟨0, List.replicate REF_IMPL_MAX_ALLOWED_HSS_LEVELS (UInt8.ofNat PARAM_SET_END), Bytes.zeros n⟩
 
+/-- length of the HSS signature for a parameter list: `u32 ‖ (LMS sig ‖ LMS pk)* ‖ LMS sig` -/
+def hssSigLen (n : Nat) (ps : List HssParam) : Nat :=
+  4 + (ps.map fun p => lms_signature_length n p.ots.p p.lms.h).foldl (· + ·) 0
+    + (ps.length - 1) * lms_public_key_length n
+
+/-- `CompressedParameterSet::is_signature_length_supported` (tinyvec's `ArrayVec` has a `u16` length) -/
+def sigLenSupported (n : Nat) (ps : List HssParam) : Bool := hssSigLen n ps ≤ 65535
+
 /-- `CompressedParameterSet::to::<H>()` (`none` = `Err(())`) -/
 def paramsOfBytes (cfg : Config) (n : Nat) (bs : Bytes) : Option (List HssParam) :=
   let rec go (level : Nat) (rest : Bytes) (acc : List HssParam) : Option (List HssParam) :=
     match rest with
-    | [] => if acc.isEmpty then none else some acc
+    | [] => if acc.isEmpty || !sigLenSupported n acc then none else some acc
     | b :: rest' =>
-      if b.toNat == PARAM_SET_END then (if acc.isEmpty then none else some acc) else
+      if b.toNat == PARAM_SET_END then (if acc.isEmpty || !sigLenSupported n acc then none else some acc) else
       match Params.lmsFromU32 (b.toNat >>> 4), Params.lmotsFromU32 n (b.toNat &&& 0x0f) with
       | some lms, some ots =>
         let p : HssParam := ⟨ots, lms⟩
@@ -46,7 +54,7 @@ def paramsOfBytes (cfg : Config) (n : Nat) (bs : Bytes) : Option (List HssParam)
   go 0 bs []
 
 /-- `CompressedParameterSet::from(parameters)` (`none` = `Err(())`) -/
-def bytesOfParams (cfg : Config) (ps : List HssParam) : P (Option Bytes) := do
+def bytesOfParams (cfg : Config) (n : Nat) (ps : List HssParam) : P (Option Bytes) := do
   if ps.length > cfg.maxLevels then return none
   if !(List.range ps.length).all (fun i => match ps[i]? with | some p => cfg.withinLimits i p | none => false) then
     return none
@@ -54,6 +62,7 @@ def bytesOfParams (cfg : Config) (ps : List HssParam) : P (Option Bytes) := do
     let v := ((p.lms.typeId % 256) <<< 4) % 256 + p.ots.typeId % 256
     P.require "hss/reference_impl_private_key.rs:CompressedParameterSet::from u8 overflow" (v < 256)
     pure (UInt8.ofNat v)
+  if !sigLenSupported n ps then return none
   pure (some (bs ++ List.replicate (REF_IMPL_MAX_ALLOWED_HSS_LEVELS - bs.length) (UInt8.ofNat PARAM_SET_END)))
 
 /-- `CompressedUsedLeafsIndexes::to(parameters)`: mask-then-shift from the bottom level up -/
@@ -215,7 +224,7 @@ def hssSign (H : HashFn) (cfg : Config) (msg sk : Bytes) (cb : Bytes → Bool) (
   P.require "hss/reference_impl_private_key.rs:to_binary_representation capacity" (newKey.length ≤ Config.maxPrivKeyLen)
   if !cb newKey then return ⟨none, [newKey], auxAfter e2 buf, rest⟩
   -- Signature::from_bytes_verbose: ArrayVec::try_from
-  if sigBytes.length > cfg.maxHssSigLen then return ⟨none, [newKey], auxAfter e2 buf, rest⟩
+  if sigBytes.length > 65535 || sigBytes.length > cfg.maxHssSigLen then return ⟨none, [newKey], auxAfter e2 buf, rest⟩
   pure ⟨some sigBytes, [newKey], auxAfter e2 buf, rest⟩
 
 /-- `SigningKey::try_sign_with_aux`: the closure overwrites the in-memory key -/
@@ -236,7 +245,7 @@ deriving Repr
 
 /-- `hss_keygen(parameters, seed, aux)` -/
 def hssKeygen (H : HashFn) (cfg : Config) (ps : List HssParam) (seed : Bytes) (aux : Option Bytes) : P KeygenOutcome := do
-  let some pb ← bytesOfParams cfg ps | return ⟨none, aux, []⟩
+  let some pb ← bytesOfParams cfg H.n ps | return ⟨none, aux, []⟩
   let k : RefKey := ⟨0, pb, seed⟩
   -- HssPublicKey::from
   let some ps' := paramsOfBytes cfg H.n k.params | return ⟨none, aux, []⟩
@@ -318,7 +327,7 @@ def verifyEntry (e : Entry) (H : HashFn) (cfg : Config) (msg sig pk : Bytes) : P
   | .fn => hssVerify H cfg msg sig pk
   | .viaSignature =>
     -- Signature::from_bytes and VerifyingKey::from_bytes are capacity-checked copies
-    if sig.length > cfg.maxHssSigLen || pk.length > Config.maxHssPkLen then pure false
+    if sig.length > 65535 || sig.length > cfg.maxHssSigLen || pk.length > Config.maxHssPkLen then pure false
     else hssVerify H cfg msg sig pk
   | .viaVerifierSignature =>
     if pk.length > Config.maxHssPkLen then pure false else hssVerify H cfg msg sig pk
